@@ -32,7 +32,8 @@ from py2v import Out, Untranslatable, find_class, find_func, parse
 
 TYPES = """(* vocabulary of the ownership skeleton (constant text) *)
 Inductive omode := MR | MW | MA.
-Inductive exn := XLaspy | XOther.                 (* LaspyException and subclasses | any other Exception subclass *)
+(* LaspyException and subclasses | any other Exception subclass | a BaseException that is not an Exception (KeyboardInterrupt ..) *)
+Inductive exn := XLaspy | XOther | XBase.
 Inductive catch_class := CatchAll | CatchException | CatchLaspy.
 Inductive cact := ActSrc | ActPS.                 (* close the stream this object holds | close the point source *)
 Inductive ps_kind := PKUncompressed (src_given : bool) | PKEmpty (src_given : bool).
@@ -40,6 +41,12 @@ Inductive sop := SRead (n : Z) | SReadToOffset | STellSave | SSeekEvlrStart | SR
 (* how the code asks an object whether it can seek: `obj.seekable()` (AttributeError when the object has no such attribute) |
    `getattr(obj, "seekable", lambda: False)()`: the object's answer if it can give one, otherwise False *)
 Inductive squery := QCall | QGetattrFalse.
+(* a point of a close method where a statement that may use the stream can raise: the close actions that run all the same
+   (those before it, and the `finally` blocks around it); None = the point is not reached with these booleans *)
+Definition fault_point := option (list cact).
+Definition fp_pre (p : list cact) (o : fault_point) : fault_point := match o with Some l => Some (p ++ l) | None => None end.
+Definition fp_post (o : fault_point) (p : list cact) : fault_point := match o with Some l => Some (l ++ p) | None => None end.
+Definition fp_when (c : bool) (o : fault_point) : fault_point := if c then o else None.
 
 """
 
@@ -198,8 +205,17 @@ def uses_outside(node, name, allowed):
     return out
 
 
+def _harmless(s):
+    """a statement that cannot fail because of the stream: `self.x = <constant | name | attribute>`"""
+    if isinstance(s, (ast.Assign, ast.AnnAssign)) and s.value is not None:
+        return not any(isinstance(n, (ast.Call, ast.Subscript, ast.BinOp, ast.Await, ast.Yield)) for n in ast.walk(s))
+    return False
+
+
 class CloseTr:
-    """method body -> Gallina term of type `list cact` over boolean variables"""
+    """method body -> Gallina term of type `list cact` over boolean variables (what a run without failure does), and the list
+    of its fault points (terms of type `fault_point`): one per statement that is not a recognised close action - it may use the
+    stream and raise - with the close actions that are executed when it does"""
 
     def __init__(self, conds, closes):
         self.conds = conds
@@ -219,9 +235,25 @@ class CloseTr:
             return "true" if e.value else "false"
         return self.conds.get(ast.unparse(e))
 
+    @staticmethod
+    def join(parts):
+        parts = [p for p in parts if p != "[]"]
+        if not parts:
+            return "[]"
+        return parts[0] if len(parts) == 1 else "(" + " ++ ".join(parts) + ")"
+
     def block(self, stmts):
+        return self.block2(stmts)[0]
+
+    def block2(self, stmts):
+        """-> (actions of a run without failure, fault points)"""
         parts = []
+        faults = []
         stmts = strip_doc(stmts)
+
+        def pre(f):
+            p = self.join(parts)
+            return f if p == "[]" else f"(fp_pre {p} {f})"
         for i, s in enumerate(stmts):
             txt = ast.unparse(s)
             if isinstance(s, ast.Pass):
@@ -231,16 +263,27 @@ class CloseTr:
                 continue
             if isinstance(s, ast.If):
                 c = self.cond(s.test)
-                a = self.block(s.body)
-                b = self.block(s.orelse)
                 if c is None:
-                    if a == "[]" and b == "[]":
-                        continue
-                    raise Untranslatable(f"a close under a condition that is not understood: {ast.unparse(s.test)}")
+                    if MENTIONS_CLOSE.search(txt):
+                        self.block2(s.body), self.block2(s.orelse)      # (reports what is not understood inside, if anything)
+                        raise Untranslatable(f"a close under a condition that is not understood: {ast.unparse(s.test)}")
+                    faults.append(pre("(Some [])"))
+                    continue
+                a, fa = self.block2(s.body)
+                b, fb = self.block2(s.orelse)
+                faults += [pre(f"(fp_when {c} {f})") for f in fa] + [pre(f"(fp_when (negb {c}) {f})") for f in fb]
                 if a == b:
                     parts.append(a)
                 else:
                     parts.append(f"(if {c} then {a} else {b})")
+                continue
+            if isinstance(s, ast.Try) and not s.handlers and not s.orelse and s.finalbody:
+                a, fa = self.block2(s.body)
+                b, fb = self.block2(s.finalbody)
+                faults += [pre(f if b == "[]" else f"(fp_post {f} {b})") for f in fa]
+                parts.append(a)
+                faults += [pre(f) for f in fb]
+                parts.append(b)
                 continue
             if isinstance(s, ast.Return):
                 if s.value is not None and not (isinstance(s.value, ast.Constant) and s.value.value is None):
@@ -252,11 +295,11 @@ class CloseTr:
                 raise Untranslatable(f"statement mentions close in a shape that is not understood: {txt[:80]}")
             if isinstance(s, (ast.Raise,)):
                 raise Untranslatable(f"raise inside a close body: {txt[:80]}")
-            # any other statement (flush, done(), header rewrite ...) is a step that closes nothing
-        parts = [p for p in parts if p != "[]"]
-        if not parts:
-            return "[]"
-        return parts[0] if len(parts) == 1 else "(" + " ++ ".join(parts) + ")"
+            if _harmless(s):
+                continue
+            # any other statement (flush, done(), header rewrite ...) closes nothing, but it may use the stream and raise
+            faults.append(pre("(Some [])"))
+        return self.join(parts), faults
 
 
 def bool_expr(e, names):
@@ -457,8 +500,10 @@ def gen_ownership(repo):
             f = find_func(find_class(parse(repo, rel), cls_name), "close")
             if len(f.args.args) != 1:
                 raise Untranslatable(f"{cls_name}.close takes arguments")
-            t = CloseTr(conds, closes).block(f.body)
-            return f"Definition {name} (closefd has_ps src_some : bool) : list cact := {t}.\n"
+            t, faults = CloseTr(conds, closes).block2(f.body)
+            return (f"Definition {name} (closefd has_ps src_some : bool) : list cact := {t}.\n"
+                    f"(* the statements of {cls_name}.close that may use the stream and raise, with the close actions run all the same *)\n"
+                    f"Definition {name}_faults (closefd has_ps src_some : bool) : list fault_point := [" + "; ".join(faults) + "].\n")
         return thunk
 
     o.add("gen_close_reader", close_of(
@@ -491,6 +536,48 @@ def gen_ownership(repo):
         return ("(* __exit__ is `self.close()` (returns None: the exception of the with-body propagates); __enter__ returns self *)\n"
                 "Definition gen_exit_closes (m : omode) : bool := true.\n")
     o.add("gen_exit_closes", exits)
+
+    # ---------------- nothing else lets go of a stream ----------------
+    def only_close():
+        """every function of the modules a stream handed to laspy travels through: a call of `.close()` / `.__exit__()` / `.detach()`
+        or a `with` statement appears only in the functions analysed above (or on an object the function has just created)"""
+        files = ["laspy/lib.py", "laspy/lasreader.py", "laspy/laswriter.py", "laspy/lasappender.py", "laspy/lasdata.py", "laspy/header.py",
+                 "laspy/_pointreader.py", "laspy/_pointwriter.py", "laspy/_pointappender.py", "laspy/vlrs/vlrlist.py", "laspy/vlrs/vlr.py",
+                 "laspy/vlrs/known.py", "laspy/point/record.py"]
+        analysed = {"laspy/lib.py:open_las", "laspy/lib.py:read_las",
+                    "laspy/lasreader.py:LasReader.close", "laspy/lasreader.py:LasReader.__exit__",
+                    "laspy/lasreader.py:UncompressedPointReader.close", "laspy/lasreader.py:EmptyPointReader.close",
+                    "laspy/laswriter.py:LasWriter.close", "laspy/laswriter.py:LasWriter.__exit__",
+                    "laspy/lasappender.py:LasAppender.close", "laspy/lasappender.py:LasAppender.__exit__",
+                    "laspy/lasdata.py:LasData._write_to"}
+        fresh = ("open", "io.BytesIO", "BytesIO", "io.StringIO", "tempfile.TemporaryFile", "np.errstate", "numpy.errstate",
+                 "warnings.catch_warnings", "contextlib.suppress")
+        bad = []
+
+        def visit(rel, node, qual):
+            for c in ast.iter_child_nodes(node):
+                if isinstance(c, (ast.FunctionDef, ast.AsyncFunctionDef, ast.ClassDef)):
+                    visit(rel, c, (qual + "." if qual else "") + c.name)
+                    continue
+                if isinstance(c, ast.Call) and isinstance(c.func, ast.Attribute) and c.func.attr in ("close", "__exit__", "detach", "__del__"):
+                    if f"{rel}:{qual}" not in analysed:
+                        bad.append(f"{rel}:{qual} calls {ast.unparse(c)[:50]}")
+                if isinstance(c, (ast.With, ast.AsyncWith)) and f"{rel}:{qual}" not in analysed:
+                    for it in c.items:
+                        e = it.context_expr
+                        if not (isinstance(e, ast.Call) and ast.unparse(e.func) in fresh):
+                            bad.append(f"{rel}:{qual} has `with {ast.unparse(e)[:50]}`")
+                visit(rel, c, qual)
+        for rel in files:
+            if os.path.exists(os.path.join(repo, rel)):
+                visit(rel, parse(repo, rel), "")
+        if bad:
+            raise Untranslatable("a stream may be let go of outside the close methods: " + "; ".join(bad[:4]))
+        return ("(* no function of lib, lasreader, laswriter, lasappender, lasdata, header, the point readers/writers/appenders, vlrs, point.record\n"
+                "   other than open_las, read_las, the close/__exit__ methods and LasData._write_to calls .close()/.__exit__()/.detach() or uses a\n"
+                "   `with` statement on an object it did not create itself: an operation on a handle never lets go of the stream *)\n"
+                "Definition gen_only_close_closes : bool := true.\n")
+    o.add("gen_only_close_closes", only_close)
 
     # ---------------- lazily created point source ----------------
     def ps_kind():
